@@ -40,6 +40,8 @@ func rulesC15(c *Ctx) {
 	c.scanLocalsCopied("R5", "GetPendingProofs", map[string]string{"witness": "Witness"})
 	c.scanLocalsCopied("R5", "GetPendingProofsByQuote", map[string]string{"witness": "Witness"})
 	c.c15PendingToSpentKeepsFields()
+	R.Rule("R9", "what a melt did is what the tables say: the melt decision table (shared with C05.R1) - a paid melt leaves its inputs in the spent table, a failed one leaves them nowhere", 20)
+	c.meltDecisionTable("R9", false)
 	c.runAs("R3", "R8", func(cc *Ctx) { cc.c05Backends() })
 	c.runAs("R9", "R8", func(cc *Ctx) { cc.ruleUnlockCallers("R9") })
 	c.readersReturnEveryRow("R5", "GetProofsUsed", "GetPendingProofs", "GetPendingProofsByQuote", "GetBlindSignatures")
